@@ -2,6 +2,7 @@ import Bluebell.Convert
 import Bluebell.Props.C01
 import Bluebell.Lemmas.EscLine
 import Bluebell.Lemmas.BlockLine
+import Bluebell.Lemmas.MixedLine
 /-!
 # C13 — a backslash makes the next character literal, everywhere
 
@@ -187,5 +188,44 @@ theorem C13_block_level_reads_escaped_line (inp : Array Char) (p : Nat) (c : Cha
     ⟨n0, fun n hn => by rw [eval_mono aknExec inp _ p hn (by rw [ht]; trivial), ht]⟩
   exact ⟨_, fun fuel => toDict_line inp fuel p stop te c w h,
     block_rules_follow_line inp p '\\' h.1 C13_block_rules_choose_line _ hline⟩
+
+/-! ## A backslash anywhere in a line of plain text -/
+
+/-- first character of a mixed line: a backslash, or a plain character at which the block-level rules choose `line` -/
+def segStartOK : List Seg → Prop
+  | .esc _ :: _ => True
+  | .run c _ :: _ => c ≠ Char.ofNat 15 ∧ blockChoosesLine c = true
+  | [] => False
+
+/-- **A backslash makes the next character literal wherever it stands in a line of plain text.** For every
+line made of escapes `\c` (any `c` but a newline — keyword letters, stars, braces, backslashes) and runs of
+plain characters in any arrangement, at every offset of every input: all block-level rules of the executing
+grammar read the line as one paragraph whose text is the line with exactly the escaping backslashes
+removed — every escaped character is there as itself, nothing became markup, no backslash is left. -/
+theorem C13_escape_anywhere_in_plain_text (inp : Array Char) (p : Nat) (ss : List Seg)
+    (h : AtSegs inp p ss) (hs : segStartOK ss) :
+    ∃ t, (∀ fuel, toDict inp (fuel + 2) t
+            = .node "content" "p" none (some [Item.text (String.ofList (segsTxt ss))]) none none none none none) ∧
+      ∀ rule ∈ blockLevelRules, Lim aknExec inp (.ref rule) p (.ok t) := by
+  cases ss with
+  | nil => exact absurd hs (by simp [segStartOK])
+  | cons s rest =>
+    cases s with
+    | esc c =>
+      obtain ⟨te, stop, hl⟩ := mixed_line p (.esc c :: rest) (by simp) h '\\' h.1 (by decide)
+      exact ⟨_, fun fuel => toDict_mixed_line fuel p stop te _ (by simp) h,
+        block_rules_follow_line inp p '\\' h.1 C13_block_rules_choose_line _ hl⟩
+    | run c r =>
+      obtain ⟨te, stop, hl⟩ := mixed_line p (.run c r :: rest) (by simp) h c h.1.1 hs.1
+      exact ⟨_, fun fuel => toDict_mixed_line fuel p stop te _ (by simp) h,
+        block_rules_follow_line inp p c h.1.1 hs.2 _ hl⟩
+
+/-- the hypotheses are met: `see \*\*this\*\* and \PART` in the middle of a text -/
+example : AtSegs "x\nsee \\*\\*this\\*\\* and \\PART\nmore\n".toList.toArray 2
+    [.run 's' "ee ".toList, .esc '*', .esc '*', .run 't' "his".toList, .esc '*', .esc '*', .run ' ' "and ".toList, .esc 'P',
+     .run 'A' "RT".toList] ∧ blockChoosesLine 's' = true := by
+  refine ⟨?_, by decide +kernel⟩
+  simp [AtSegs, AtRun]
+  decide +kernel
 
 end Bluebell
